@@ -375,6 +375,11 @@ def _shape_case(case):
     kw = {}
     if p["multi"]:
         kw["rotations"] = Rotation.from_rotvec([[0, 0, 0], [0.2, 0, 0]])
+        if rng.random() < 0.5:
+            # rotations and several templates together: K*T candidates
+            tmpl = [tmpl, rng.normal(size=(S, S, S)).astype(np.float32), rng.normal(size=(S, S, S)).astype(np.float32)]
+            if rng.random() < 0.5:
+                kw["rotations"] = Rotation.from_rotvec([[0, 0, 0], [0.2, 0, 0], [0, 0, -0.2], [0, 0.3, 0]])
     ms_nm = p["ms"]
     ms_px = ms_nm / s
     if p["model"] == "FSC" and ms_px > 3.5:
@@ -395,6 +400,10 @@ def _shape_case(case):
                upsample=p["upsample"], model=p["model"], multi=p["multi"])
     case.check(got.shape[0] == N and (got.ndim == (5 if p["multi"] else 4)), "landscape stack has the wrong rank",
                None, shape=got.shape)
+    if p["multi"] and tuple(lds.shape) == tuple(got.shape):
+        k_last = got.shape[1] - 1
+        case.check(np.allclose(np.asarray(lds[:, k_last].compute()), got[:, k_last], atol=1e-6),
+                   "lazy slice of the last candidate differs from the computed landscape", None)
 
 
 def run(case):
